@@ -92,6 +92,7 @@ type Env struct {
 	DB       db.Database
 	Chain    *Chain
 	CM       contract.ContractManager
+	Faults   *FaultCM        // == CM: the platform's contract manager with scripted endings for FaultAddr destinations
 	EM       eeproxy.Manager // nil: scripted and transfer transactions do not need an execution engine
 	Platform base.Platform
 	TSC      *service.TxTimestampChecker
@@ -134,7 +135,8 @@ func NewEnvKeepDir() (*Env, error) {
 		os.RemoveAll(dir)
 		return nil, err
 	}
-	e.CM = cm
+	e.Faults = NewFaultCM(cm)
+	e.CM = e.Faults
 	e.TSC = service.NewTimestampChecker()
 	return e, nil
 }
